@@ -9,7 +9,8 @@ LEVEL = "exploration"
 RULE = ("One scenario in each of 10 contexts {plain scenario, outline row} x {no background, feature background, feature + "
         "rule background}, plus outline rows whose inherited background steps are parametrised with <column> placeholders "
         "at the feature level, the rule level or both, followed by a sibling scenario; ALL outcome sequences over {pass, fail, error, pending, "
-        "undefined, skip, kbi, convert} (and converters raising KeyError / AssertionError / RuntimeError) of length <= 3 (quick) / <= 4 (thorough; 5 in the plain context), background steps "
+        "undefined, skip, kbi, convert} (and converters raising KeyError / AssertionError / RuntimeError; step functions raising a SUBCLASS of "
+        "AssertionError / StepNotImplementedError / KeyboardInterrupt and the builtin NotImplementedError, i.e. the superclass of the pending class) of length <= 3 (quick) / <= 4 (thorough; 5 in the plain context), background steps "
         "drawing outcomes too; x {@wip} x {dry-run} x {continue_after_failed_step} x {sync, async step functions (async: length <= 2 in quick)}. Oracle: "
         "predicted call log (which step function, in which scenario, in which order, inherited background first) and "
         "predicted status of every step from the reference interpreter. Histories: the same model object run 2 (3) times "
@@ -89,8 +90,8 @@ def cases(tier):
     for L in range(1, (3 if quick else 4) + 1):
         for seq in itertools.product(OUT8, repeat=L):
             for kind, nbg in CONTEXTS:
-                if L <= nbg:
-                    continue
+                if L < nbg or (L == nbg and kind != "S"):
+                    continue        # L == nbg: a plain scenario WITHOUT own steps - only the inherited ones run
                 if L == 4 and (nbg == 1):
                     continue        # thorough: length 4 in contexts 0bg and 2bg
                 for wip, dry, cafs in itertools.product((0, 1), repeat=3):
@@ -113,6 +114,26 @@ def cases(tier):
                     continue
                 for wip, dry, cafs in ((0, 0, 0), (0, 1, 0), (0, 0, 1), (1, 0, 0)):
                     yield (kind, nbg, seq, wip, dry, cafs, 0)
+
+
+def class_cases(tier):
+    """the CLASS of the exception a step function raises: for every `except X` clause of Step.run a subclass of X and
+    X's immediate superclass (P.CLASS_VARIANTS), in every context x {plain, @wip, dry-run, cafs, @wip+cafs}"""
+    quick = tier == "quick"
+    ALPH = ("pass", "fail", "pending") + P.CLASS_VARIANTS
+    for L in (1, 2, 3):
+        for seq in itertools.product(ALPH, repeat=L):
+            if not any(o in P.CLASS_VARIANTS for o in seq):
+                continue
+            if L == 3 and quick and sum(1 for o in seq if o != "pass") > 1:
+                continue
+            for kind, nbg in CONTEXTS:
+                if L <= nbg or (L == 3 and kind.startswith("P")):
+                    continue
+                for wip, dry, cafs in ((0, 0, 0), (1, 0, 0), (0, 1, 0), (0, 0, 1), (1, 0, 1)):
+                    yield (kind, nbg, seq, wip, dry, cafs, 0)
+                if L == 1:
+                    yield (kind, nbg, seq, 1, 0, 0, 1)      # async, @wip
 
 
 # ---- histories: repeated runs of the same scenario object ----------------------------------------
@@ -207,5 +228,6 @@ def run(ctx):
     ctx.bounds = {"sequence_length": 3 if ctx.quick else "4 (5 in the plain context over 6 outcomes)",
                   "contexts": len(CONTEXTS), "switch_combinations": 8, "history_runs": 2 if ctx.quick else 3}
     ctx.sweep(run_case, cases(ctx.tier), chunk=64, name="outcome sequences x contexts x switches")
+    ctx.sweep(run_case, class_cases(ctx.tier), chunk=64, name="exception classes around every except clause of Step.run")
     ctx.sweep(history_case, history_cases(ctx.tier), chunk=32, name="re-run histories of one model object")
     ctx.guard(len(ctx.outcomes) > 200, "at least 200 distinct observed outcome classes")
